@@ -10,17 +10,17 @@ WT=$(mktemp -d /tmp/confirm_XXXX)
 git -C /repo worktree add -q --detach "$WT" HEAD || exit 3
 cd "$WT"
 echo "== demo on unmodified tree"
-( cd "$WT" && PYTHONPATH="$WT" timeout 120 /venv/bin/python "$DEMO" >/tmp/confirm_demo0.log 2>&1 ); RC0=$?
+( cd "$WT" && PYTHONPATH="$WT" timeout 120 /venv/bin/python "$DEMO" >/tmp/confirm_demo0_$ID.log 2>&1 ); RC0=$?
 echo "rc=$RC0"
 if ! git apply "$SRC/patch.diff" 2>/dev/null; then git apply --3way "$SRC/patch.diff" || { echo "patch does not apply"; git -C /repo worktree remove --force "$WT"; exit 4; }; fi
 echo "== demo on modified tree"
-( cd "$WT" && PYTHONPATH="$WT" timeout 120 /venv/bin/python "$DEMO" >/tmp/confirm_demo1.log 2>&1 ); RC1=$?
+( cd "$WT" && PYTHONPATH="$WT" timeout 120 /venv/bin/python "$DEMO" >/tmp/confirm_demo1_$ID.log 2>&1 ); RC1=$?
 echo "rc=$RC1"
 echo "== suite on modified tree"
-( cd "$WT" && PYTHONPATH="$WT" /venv/bin/python -m pytest -q -p no:cacheprovider --timeout=900 2>&1 | tail -3 ) > /tmp/confirm_suite.log
-SUITE=$(tail -1 /tmp/confirm_suite.log)
+( cd "$WT" && PYTHONPATH="$WT" /venv/bin/python -m pytest -q -p no:cacheprovider --timeout=900 2>&1 | tail -3 ) > /tmp/confirm_suite_$ID.log
+SUITE=$(tail -1 /tmp/confirm_suite_$ID.log)
 echo "$SUITE"
-FAILED=$(grep -E "^FAILED" /tmp/confirm_suite.log | grep -v crypto_test | grep -v test_group_4 | grep -v test_group_14 | wc -l)
+FAILED=$(grep -E "^FAILED" /tmp/confirm_suite_$ID.log | grep -v crypto_test | grep -v test_group_4 | grep -v test_group_14 | wc -l)
 git -C /repo worktree remove --force "$WT"
 if [ $RC0 -eq 0 ] && [ $RC1 -ne 0 ] && [ $FAILED -eq 0 ]; then
   mkdir -p /verif/seeded/$ID
